@@ -554,6 +554,98 @@ struct Acc {
     violations: Vec<Violation>,
 }
 
+/// `$+` / `$*` over floats and `$+` over strings equal the documented left folds *exactly*: every
+/// element sequence of length 0..=4 over float alphabets whose sums round, cancel, overflow or
+/// underflow, compared bit for bit with Rust's left fold; through an array-derived iterator, a
+/// user-written one, behind an `@` stage and through std.operators.
+fn float_and_string_folds() -> (u64, Vec<Violation>) {
+    use simplesl::variable::Variable;
+    use simplesl::{Code, Interpreter};
+    let alphabet: [f64; 9] = [0.1, 0.2, 0.3, 1e16, 1.0, -1e16, 1e308, -0.0, 0.5];
+    let mut seqs: Vec<Vec<f64>> = vec![vec![]];
+    let mut last: Vec<Vec<f64>> = vec![vec![]];
+    for _ in 0..4 {
+        let mut next = Vec::new();
+        for s in &last {
+            for a in alphabet {
+                let mut t = s.clone();
+                t.push(a);
+                next.push(t);
+            }
+        }
+        seqs.extend(next.iter().cloned());
+        last = next;
+    }
+    seqs.push(vec![0.1; 10]);
+    seqs.push(vec![1e308, 1e308, -1e308, -1e308]);
+    seqs.push(vec![f64::INFINITY, 1.0, f64::NEG_INFINITY]);
+    let interp = Interpreter::with_stdlib();
+    let forms: Vec<(&str, &str)> = vec![
+        ("array-iterator", "f := (a: [float]) -> any { return (a~ $+, a~ $*) }"),
+        ("user-iterator", "f := (a: [float]) -> any { mk := () -> () -> (bool, float) { i := mut 0; return () -> (bool, float) { if *i < std.len(a) { i += 1; return (true, a[*i - 1]) }; return (false, 0.0) } }; return (mk() $+, mk() $*) }"),
+        ("behind-map", "f := (a: [float]) -> any { id := (x: float) -> float { return x }; return (a~ @ id $+, a~ @ id $*) }"),
+        ("std.operators", "f := (a: [float]) -> any { return (std.operators.float_sum(a~), std.operators.float_product(a~)) }"),
+    ];
+    let mut fs = Vec::new();
+    let mut out = Vec::new();
+    for (name, text) in &forms {
+        match core::guard(|| Code::parse(&interp, text).map(|c| c.exec())) {
+            Ok(Ok(Ok(Variable::Function(f)))) => fs.push((*name, *text, f)),
+            other => out.push(Violation { sig: format!("C11|float-folds|program-fails|{name}"), detail: json!({"kind": "program", "stdlib": true, "text": text, "observed": format!("{:?}", other.map(|r| r.map(|r| r.map(|v| canon(&v)))))}) }),
+        }
+    }
+    let mut n = 0u64;
+    for seq in &seqs {
+        let sum = seq.iter().fold(0.0f64, |a, x| a + x);
+        let prod = seq.iter().fold(1.0f64, |a, x| a * x);
+        let want = format!("({}, {})", crate::val::float_canon(sum), crate::val::float_canon(prod));
+        let arg: Variable = seq.iter().map(|x| Variable::Float(*x)).collect::<Vec<_>>().into();
+        let arg = if seq.is_empty() {
+            match core::guard(|| Code::parse(&interp, "[0.0; 0]").unwrap().exec().unwrap()) {
+                Ok(v) => v,
+                Err(_) => continue,
+            }
+        } else {
+            arg
+        };
+        for (name, text, f) in &fs {
+            n += 1;
+            let got = match core::guard(|| f.clone().create_call(vec![arg.clone()]).map(|c| c.exec())) {
+                Ok(Ok(Ok(v))) => canon(&v),
+                Ok(Ok(Err(e))) => format!("error:{}", core::exec_error_kind(&e)),
+                Ok(Err(e)) => format!("host-rejected:{}", core::error_kind(&e)),
+                Err(core::Stop::Panic(p)) => format!("PANIC {} @{}", p.short_msg(), p.file()),
+                Err(core::Stop::Exhausted) => continue,
+            };
+            if got != want {
+                let shown: Vec<String> = seq.iter().map(|x| format!("{x:?}")).collect();
+                out.push(Violation {
+                    sig: format!("C11|float-folds|{name}|len={}|{}", seq.len(), shown.join(",").chars().take(60).collect::<String>()),
+                    detail: json!({"kind": "host_call", "program": text, "args": [format!("[{}]", shown.join(", "))], "expected (sum, product) of the left folds": want, "observed": got}),
+                });
+            }
+        }
+    }
+    // strings: concatenation in order
+    let sf = core::guard(|| Code::parse(&interp, "f := (a: [string]) -> any { return a~ $+ }").map(|c| c.exec()));
+    if let Ok(Ok(Ok(Variable::Function(f)))) = sf {
+        for seq in [vec![], vec!["a"], vec!["a", "b"], vec!["", "é", "", "z"], vec!["ab", "", "cd", "e"]] {
+            n += 1;
+            let want = format!("{:?}", seq.concat());
+            let arg = if seq.is_empty() { core::guard(|| Code::parse(&interp, "[\"\"; 0]").unwrap().exec().unwrap()).ok() } else { Some(seq.iter().map(|x| Variable::from(*x)).collect::<Vec<_>>().into()) };
+            let Some(arg) = arg else { continue };
+            let got = match core::guard(|| f.clone().create_call(vec![arg]).map(|c| c.exec())) {
+                Ok(Ok(Ok(v))) => canon(&v),
+                other => format!("{:?}", other.map(|r| r.map(|r| r.map(|v| canon(&v))))),
+            };
+            if got != want {
+                out.push(Violation { sig: format!("C11|string-fold|{}", seq.join(",")), detail: json!({"kind": "host_call", "program": "f := (a: [string]) -> any { return a~ $+ }", "args": [format!("{seq:?}")], "expected": want, "observed": got}) });
+            }
+        }
+    }
+    (n, out)
+}
+
 pub fn run(tier: &str) -> i32 {
     let thorough = tier == "thorough";
     let mut report = Report::new("C11", tier);
@@ -631,6 +723,8 @@ pub fn run(tier: &str) -> i32 {
         let j = &js[17];
         json!({"program_tail": program(&j.source, &j.stages, j.consumer, j.pulls, j.twice).lines().rev().take(4).collect::<Vec<_>>(), "expected_trace": reference(&j.source, &j.stages, j.consumer, j.pulls).1})
     });
+    let folds = core::on_big_stack(float_and_string_folds);
+    report.violations(folds.1);
     let Acc { programs, events, outcomes, violations } = acc;
     report.violations(violations);
     let coverage = json!({
@@ -638,6 +732,7 @@ pub fn run(tier: &str) -> i32 {
         "transitions": events + programs,
         "traces_validated_against_impl": programs,
         "programs": programs,
+        "float_and_string_fold_cases (sequences of length 0..=4 over 9 floats + 3 long ones x 4 routes, bit-exact against the left fold)": folds.0,
         "reference_events_compared": events,
         "distinct_outcomes": outcomes.len(),
         "samples": samples.items,
